@@ -66,18 +66,12 @@ func init() {
 	})
 }
 
-func runC19(c *core.Ctx, idx int) {
-	r := c.Rand()
-	env, err := newQEnv(c, r, 12, idx%2 == 0)
-	if err != nil {
-		c.Violation("C19 setup", err.Error(), nil)
-		return
-	}
-	defer env.close()
-	st := env.sc.St(qx.Things)
+// newC19Store builds an object store over the things of a world (nullable fields as nil pointers); every query
+// iterates the objects in a freshly shuffled order.
+func newC19Store(w *qx.World, r *core.Rand) *objectz.ObjectStore[*c19Obj] {
 	var objs []*c19Obj
-	for _, id := range env.w.Ids(qx.Things) {
-		v := env.w.Rows[qx.Things][id].V
+	for _, id := range w.Ids(qx.Things) {
+		v := w.Rows[qx.Things][id].V
 		objs = append(objs, &c19Obj{id: id, s: ptr[string](v["s"]), ism: ptr[int64](v["ism"]), ibig: ptr[int64](v["ibig"]), flt: ptr[float64](v["flt"]), b: ptr[bool](v["b"]),
 			t: ptr[time.Time](v["t"]), grp: ptr[string](v["grp"]), owner: ptr[string](v["owner"])})
 	}
@@ -93,6 +87,19 @@ func runC19(c *core.Ctx, idx int) {
 	os.AddDatetimeSymbol("t", func(o *c19Obj) *time.Time { return o.t })
 	os.AddStringSymbol("grp", func(o *c19Obj) *string { return o.grp })
 	os.AddStringSymbol("owner", func(o *c19Obj) *string { return o.owner })
+	return os
+}
+
+func runC19(c *core.Ctx, idx int) {
+	r := c.Rand()
+	env, err := newQEnv(c, r, 12, idx%2 == 0)
+	if err != nil {
+		c.Violation("C19 setup", err.Error(), nil)
+		return
+	}
+	defer env.close()
+	st := env.sc.St(qx.Things)
+	os := newC19Store(env.w, r)
 
 	g := &qx.Gen{R: r, W: env.w, Store: qx.Things, ScalarOnly: true}
 	wd := worldDigest(env.w)
@@ -178,7 +185,7 @@ func runC19(c *core.Ctx, idx int) {
 								c.Nontrivial(text, wd)
 							}
 							if c.WantSample() && proper {
-								c.Sample(map[string]any{"query": text, "objects": len(objs), "page": wantIds, "count": wantCount})
+								c.Sample(map[string]any{"query": text, "objects": len(env.w.Ids(qx.Things)), "page": wantIds, "count": wantCount})
 							}
 						}
 					}
